@@ -301,8 +301,12 @@ func ruleC18Sources(c *Ctx) {
 	c.census("C18-SOURCES", "callers of the analysis function", nCallers, 1)
 }
 
-// ruleSeenOnce: the undeclared-commodity check reports each symbol once per transaction (one `seen` set
-// consulted and updated by the closure that emits the diagnostic).
+// ruleSeenOnce: the undeclared-commodity check reports each symbol once per transaction: the emission of the
+// warning is control dependent on the symbol being neither in the declared set (a map that reaches the check
+// from outside) nor in a seen set that is created once per checked transaction, and the symbol is put into that
+// seen set.  The tests may be written in the emitting function, in a boolean helper, or at the call sites of
+// the emitting function (a visitor object); the sets may be locals, captured variables or fields of a local
+// check object.
 func ruleSeenOnce(c *Ctx) {
 	fd := undeclaredCommodityCheck(c.P)
 	if fd == nil {
@@ -318,7 +322,218 @@ func ruleSeenOnce(c *Ctx) {
 	fname := c.P.declName(fd)
 	fns := []*ssa.Function{F}
 	fns = append(fns, F.AnonFuncs...)
+	// the region: the emitting function, its closures, and the functions of the package that call it up to the one
+	// that is handed the transaction
+	root := F
+	region := map[*ssa.Function]bool{}
+	for _, f := range fns {
+		region[f] = true
+	}
+	takesTx := func(f *ssa.Function) bool {
+		for _, p := range f.Params {
+			if typeHasSuffix(p.Type(), "ast.Transaction") {
+				return true
+			}
+		}
+		return false
+	}
+	for cur, depth := F, 0; !takesTx(cur) && depth < 3; depth++ {
+		sites := cg.callersOf(cur)
+		if len(sites) == 0 {
+			break
+		}
+		up := sites[0].Parent()
+		for up.Parent() != nil {
+			up = up.Parent()
+		}
+		same := true
+		for _, st := range sites {
+			t := st.Parent()
+			for t.Parent() != nil {
+				t = t.Parent()
+			}
+			if t != up {
+				same = false
+			}
+		}
+		if !same || up.Pkg != F.Pkg {
+			break
+		}
+		cur, root = up, up
+		region[up] = true
+		for _, a := range up.AnonFuncs {
+			region[a] = true
+		}
+	}
+	// origins of a set inside the region: "make@pos" for a map made in the region, "outside" for a value that
+	// enters through a parameter of the root function (or anything else from outside the region); locals,
+	// captured variables, parameters of inner functions and fields of a local check object are looked through
+	var deepOrigins func(v ssa.Value, depth int, out map[string]bool)
+	deepOrigins = func(v ssa.Value, depth int, out map[string]bool) {
+		if depth > 6 || v == nil {
+			return
+		}
+		v = stripConv(v)
+		fromCell := func(cell ssa.Value) {
+			if refs := cell.Referrers(); refs != nil {
+				for _, r := range *refs {
+					if st, ok := r.(*ssa.Store); ok && st.Addr == cell {
+						deepOrigins(st.Val, depth+1, out)
+					}
+				}
+			}
+		}
+		switch x := v.(type) {
+		case *ssa.MakeMap:
+			out[fmt.Sprintf("make@%d", x.Pos())] = true
+		case *ssa.Parameter:
+			if x.Parent() == root || !region[x.Parent()] {
+				out["outside"] = true
+				return
+			}
+			for _, site := range cg.callersOf(x.Parent()) {
+				for i, q := range x.Parent().Params {
+					if q == x && i < len(site.Common().Args) {
+						deepOrigins(site.Common().Args[i], depth+1, out)
+					}
+				}
+			}
+		case *ssa.Phi:
+			for _, e := range x.Edges {
+				deepOrigins(e, depth+1, out)
+			}
+		case *ssa.Call:
+			if cal := x.Call.StaticCallee(); cal != nil && cal.Blocks != nil && inModule(cal) {
+				for _, b := range cal.Blocks {
+					if r, ok := b.Instrs[len(b.Instrs)-1].(*ssa.Return); ok {
+						for _, rv := range r.Results {
+							if _, isMap := rv.Type().Underlying().(*types.Map); isMap {
+								if mm, ok := unspillResult(rv, b).(*ssa.MakeMap); ok {
+									out[fmt.Sprintf("make@%d", mm.Pos())] = true
+								} else {
+									out["outside"] = true
+								}
+							}
+						}
+					}
+				}
+			} else {
+				out["outside"] = true
+			}
+		case *ssa.UnOp:
+			if x.Op != token.MUL {
+				return
+			}
+			switch a := x.X.(type) {
+			case *ssa.Alloc:
+				fromCell(a)
+			case *ssa.FreeVar:
+				cell := ssa.Value(a)
+				for range 6 {
+					fv, ok := cell.(*ssa.FreeVar)
+					if !ok {
+						break
+					}
+					cell = freeVarBinding(fv)
+					if cell == nil {
+						return
+					}
+				}
+				fromCell(cell)
+			case *ssa.FieldAddr:
+				st := a.X.Type().Underlying().(*types.Pointer).Elem().Underlying().(*types.Struct)
+				fieldName := st.Field(a.Field).Name()
+				var bases []ssa.Value
+				switch b := a.X.(type) {
+				case *ssa.Alloc:
+					bases = append(bases, b)
+				case *ssa.Parameter:
+					if b.Parent() == root || !region[b.Parent()] {
+						out["outside"] = true
+						return
+					}
+					for _, site := range cg.callersOf(b.Parent()) {
+						for i, q := range b.Parent().Params {
+							if q == b && i < len(site.Common().Args) {
+								bases = append(bases, site.Common().Args[i])
+							}
+						}
+					}
+				default:
+					out["outside"] = true
+				}
+				for _, base := range bases {
+					// the check object captured by a closure (or by the body of a range-over-func loop)
+					for range 6 {
+						fv, ok := base.(*ssa.FreeVar)
+						if !ok {
+							break
+						}
+						if base = freeVarBinding(fv); base == nil {
+							break
+						}
+					}
+					al, ok := base.(*ssa.Alloc)
+					if !ok {
+						out["outside"] = true
+						continue
+					}
+					stores := map[string][]ssa.Value{}
+					collectFieldStores(al, "", stores, 0)
+					if len(stores["."+fieldName]) == 0 {
+						out["outside"] = true
+					}
+					for _, sv := range stores["."+fieldName] {
+						deepOrigins(sv, depth+1, out)
+					}
+				}
+			default:
+				out["outside"] = true
+			}
+		case *ssa.Field:
+			out["outside"] = true
+		default:
+			out["outside"] = true
+		}
+	}
+	classify := func(x ssa.Value) (kind string, or map[string]bool) {
+		or = map[string]bool{}
+		deepOrigins(x, 0, or)
+		outside, made := or["outside"], false
+		for o := range or {
+			if strings.HasPrefix(o, "make@") {
+				made = true
+			}
+		}
+		switch {
+		case made && !outside:
+			return "seen", or
+		case outside && !made:
+			return "declared", or
+		}
+		return "", or
+	}
+	// control conditions of a block, extended by those of the call sites of its function inside the region
+	var condsOf func(b *ssa.BasicBlock, depth int, seen map[*ssa.BasicBlock]bool) []ctrlCond
+	condsOf = func(b *ssa.BasicBlock, depth int, seen map[*ssa.BasicBlock]bool) []ctrlCond {
+		if b == nil || seen[b] || depth > 3 {
+			return nil
+		}
+		seen[b] = true
+		out := append([]ctrlCond{}, controlCondsPol(b)...)
+		f := b.Parent()
+		if f != root && region[f] {
+			for _, site := range cg.callersOf(f) {
+				out = append(out, condsOf(site.Block(), depth+1, seen)...)
+			}
+		}
+		return out
+	}
+	sameKey := func(a, b ssa.Value) bool {
+		return a != nil && b != nil && (stripConv(a) == stripConv(b) || sameLoad(stripConv(a), stripConv(b)))
+	}
 	n := 0
+	seenMakes := map[string]bool{}
 	for _, f := range fns {
 		for _, b := range f.Blocks {
 			for _, ins := range b.Instrs {
@@ -335,51 +550,46 @@ func ruleSeenOnce(c *Ctx) {
 					continue
 				}
 				n++
-				// control dependence: neither in the declared set (a parameter of the check) nor in a set created once per call
+				// control dependence: neither in the declared set nor in a set created once per call
 				var declKey, seenKey ssa.Value
 				var seenOrigins map[string]bool
-				for _, cc := range controlCondsPol(b) {
-					lk, ok := cc.Cond.(*ssa.Lookup)
+				for _, cc := range condsOf(b, 0, map[*ssa.BasicBlock]bool{}) {
+					mt, ok := setMembership(cc.Cond)
 					if !ok || cc.Taken {
 						continue
 					}
-					or := map[string]bool{}
-					mapOrigins(cg, lk.X, 0, or)
-					isParam, madeOnce := false, false
-					for o := range or {
-						if strings.HasPrefix(o, "param:") {
-							isParam = true
-						}
-						if strings.HasPrefix(o, "make@") {
-							madeOnce = true
-						}
-					}
-					if isParam {
-						declKey = lk.Index
-					} else if madeOnce {
-						seenKey, seenOrigins = lk.Index, or
+					switch kind, or := classify(mt.X); kind {
+					case "declared":
+						declKey = mt.Index
+					case "seen":
+						seenKey, seenOrigins = mt.Index, or
 					}
 				}
 				// the symbol is marked in the seen set on the way to the emission
 				marks := false
-				for _, g := range fns {
+				for g := range region {
 					for _, b2 := range g.Blocks {
 						for _, i2 := range b2.Instrs {
-							mu, ok := i2.(*ssa.MapUpdate)
-							if !ok || seenKey == nil || stripConv(mu.Key) != stripConv(seenKey) {
+							muMap, muKey, ok := setInsertion(i2)
+							if !ok || seenKey == nil || !sameKey(muKey, seenKey) {
 								continue
 							}
 							or := map[string]bool{}
-							mapOrigins(cg, mu.Map, 0, or)
+							deepOrigins(muMap, 0, or)
 							for o := range or {
-								if seenOrigins[o] && (b2 == b || b2.Dominates(b) || b.Dominates(b2)) {
+								if strings.HasPrefix(o, "make@") && seenOrigins[o] && (g != f || b2 == b || b2.Dominates(b) || b.Dominates(b2)) {
 									marks = true
 								}
 							}
 						}
 					}
 				}
-				okBoth := declKey != nil && seenKey != nil && stripConv(declKey) == stripConv(seenKey)
+				for o := range seenOrigins {
+					if strings.HasPrefix(o, "make@") {
+						seenMakes[o] = true
+					}
+				}
+				okBoth := declKey != nil && seenKey != nil && sameKey(declKey, seenKey)
 				c.check(okBoth && marks, "C18-ONCE", fname, "one warning per undeclared symbol and transaction", st.Pos(),
 					"the warning is built only for symbols that are neither in the declared set nor in the per-call seen set, and the symbol is then marked",
 					fmt.Sprintf("the undeclared-commodity warning is not guarded by both the declared set and a per-transaction seen set (declared test: %v, seen test: %v, marks seen: %v)", declKey != nil, seenKey != nil, marks))
@@ -389,11 +599,16 @@ func ruleSeenOnce(c *Ctx) {
 	c.census("C18-ONCE", "diagnostic emission sites in the undeclared-commodity check", n, 1)
 	// the seen set is created once per call (per transaction), outside any loop
 	okOnce := false
-	for _, b := range F.Blocks {
-		for _, ins := range b.Instrs {
-			if mm, ok := ins.(*ssa.MakeMap); ok {
-				if m, ok := mm.Type().Underlying().(*types.Map); ok && types.TypeString(m.Elem(), nil) == "bool" && !inCycle(b) {
-					okOnce = true
+	for g := range region {
+		if g.Parent() != nil {
+			continue
+		}
+		for _, b := range g.Blocks {
+			for _, ins := range b.Instrs {
+				if mm, ok := ins.(*ssa.MakeMap); ok {
+					if m, ok := mm.Type().Underlying().(*types.Map); ok && isSetElem(m.Elem()) && !inCycle(b) && (len(seenMakes) == 0 || seenMakes[fmt.Sprintf("make@%d", mm.Pos())]) {
+						okOnce = true
+					}
 				}
 			}
 		}
@@ -2355,4 +2570,47 @@ func yieldContrib(it *ssa.Function) map[string]int {
 		}
 	}
 	return out
+}
+
+// setInsertion: the instruction puts a key into a set-like map: a map update, or a call of a helper whose only
+// map update stores its key parameter into its map parameter (`set.add(k)`).
+func setInsertion(ins ssa.Instruction) (m, key ssa.Value, ok bool) {
+	switch x := ins.(type) {
+	case *ssa.MapUpdate:
+		return x.Map, x.Key, true
+	case *ssa.Call:
+		h := x.Call.StaticCallee()
+		if h == nil || h.Blocks == nil || !inModule(h) {
+			return nil, nil, false
+		}
+		var mu *ssa.MapUpdate
+		n := 0
+		for _, b := range h.Blocks {
+			for _, i2 := range b.Instrs {
+				if u, ok := i2.(*ssa.MapUpdate); ok {
+					n++
+					mu = u
+				}
+			}
+		}
+		if n != 1 {
+			return nil, nil, false
+		}
+		bind := func(v ssa.Value) ssa.Value {
+			if p, ok := stripConv(v).(*ssa.Parameter); ok && p.Parent() == h {
+				for i, q := range h.Params {
+					if q == p && i < len(x.Call.Args) {
+						return x.Call.Args[i]
+					}
+				}
+			}
+			return nil
+		}
+		mm, kk := bind(mu.Map), bind(mu.Key)
+		if mm == nil || kk == nil {
+			return nil, nil, false
+		}
+		return mm, kk, true
+	}
+	return nil, nil, false
 }
